@@ -2,6 +2,7 @@ package main
 
 import (
 	"math"
+	"net"
 	"fmt"
 	"go/types"
 	"strings"
@@ -99,6 +100,12 @@ func opaqueOf(t types.Type) Value {
 		return Iface{t: opaqueType, v: Opaque{"blackhole"}}
 	case *types.Signature:
 		return &Native{name: "blackhole", fn: func(in *Interp, args []Value) Value { return opaqueResults(u.Results()) }}
+	case *types.Pointer:
+		// a non-nil object so that promoted-method wrappers can dereference it
+		if _, ok := underlying(u.Elem()).(*types.Struct); ok {
+			v := zero(u.Elem())
+			return &v
+		}
 	}
 	return zero(t)
 }
@@ -145,6 +152,53 @@ func init() {
 			t = Ite(Eq(idx, BV(8, uint64(i))), in.strTerm(opts[i]), t)
 		}
 		return &SymStr{t: t}
+	})
+	reg(vrtPath+"SameState", func(in *Interp, fr *frame, a []Value) Value {
+		x, y := a[0].(Iface), a[1].(Iface)
+		if x.t == nil || y.t == nil {
+			return Bool(x.t == nil && y.t == nil)
+		}
+		if !types.Identical(x.t, y.t) {
+			return tFalse
+		}
+		return in.sameState(x.t, x.v, y.v, 0)
+	})
+	reg("net.ParseIP", func(in *Interp, fr *frame, a []Value) Value {
+		switch s := a[0].(type) {
+		case string:
+			ip := net.ParseIP(s)
+			if ip == nil {
+				return Slice(nil)
+			}
+			return bytesToSlice(ip)
+		case *SymStr:
+			if !s.opaque && s.t.op == OApp && s.t.name == "IPStr" {
+				out := make(Slice, 16)
+				for i := range out {
+					out[i] = s.t.args[i]
+				}
+				return out
+			}
+		}
+		in.abort("unsupported: net.ParseIP on a symbolic string that is not an address text")
+		return nil
+	})
+	reg("net.ParseCIDR", func(in *Interp, fr *frame, a []Value) Value {
+		str, ok := a[0].(string)
+		if !ok {
+			if ss, ok := a[0].(*SymStr); ok {
+				if v := in.parseSymCIDR(ss); v != nil {
+					return v
+				}
+			}
+			in.abort("unsupported: net.ParseCIDR on a symbolic string")
+		}
+		ip, n, err := net.ParseCIDR(str)
+		if err != nil {
+			return Tuple{Slice(nil), (*Value)(nil), in.newError("net.ParseCIDR", nil)}
+		}
+		st := Value(Struct{bytesToSlice(n.IP), bytesToSlice(n.Mask)})
+		return Tuple{bytesToSlice(ip), &st, Iface{}}
 	})
 	reg(vrtPath+"Assume", func(in *Interp, fr *frame, a []Value) Value { in.assume(asTerm(a[0])); return nil })
 	reg(vrtPath+"Assert", func(in *Interp, fr *frame, a []Value) Value {
